@@ -51,7 +51,7 @@ out += ["", f"Summary: {caught} caught, {killed} already killed by the repositor
 "## 3. Silence on the pristine tree\n",
 "`sensitivity/silence.txt` (produced by `tools/silence.sh` with the final checks): every check over 60 different `VERIF_SEED` values",
 "(400..459, a tenth of the quick budget each) on the unchanged tree: no VIOLATION line, exit 0 every time; the thorough tier of all",
-"eight checks at seed 91: silent (C17 including its Miri layer, 24 executions).  Earlier versions of the checks were run the same way",
+"eight checks at seeds 91 and 101 (101: every check at the final commit): silent (C17 including its Miri layer, 24 executions each); the full quick budget at seeds 2..9: silent.  Earlier versions of the checks were run the same way",
 "over seeds 100..199, 200..299 and 300..399 (100 seeds each, all silent), and the thorough tier over seeds 7, 11, 21, 31, 41, 51, 71, 81",
 "(the only alarm ever was the C05 false alarm of DESIGN.md 7 correction 7, at seed 21, corrected since).",
 "`sensitivity/determinism.txt` (`tools/determinism.sh 512`): plan digests and history digests identical across six executions per",
